@@ -271,7 +271,37 @@ pub fn children(e: &E) -> Vec<(Frame, &E)> {
 /// body and do-block). `definite` = assigned on every successful evaluation of `e`
 /// (not under a conditional branch); `possible` ⊇ definite. Multiplicity is kept for
 /// `definite` so that a double assignment in one statement can be recognised.
+/// The value of a condition that is a constant: a boolean literal, or a comparison of two
+/// integer literals.
+pub fn const_bool(e: &E) -> Option<bool> {
+    match e {
+        E::Bool(b) => Some(*b),
+        E::Bin(op, a, b) => {
+            let (E::Num(x), E::Num(y)) = (&**a, &**b) else { return None };
+            let (x, y) = (x.parse::<i64>().ok()?, y.parse::<i64>().ok()?);
+            match op.as_str() {
+                ".<" | "<" => Some(x < y),
+                ".<=" | "<=" => Some(x <= y),
+                ".>" | ">" => Some(x > y),
+                ".>=" | ">=" => Some(x >= y),
+                ".==" | "==" => Some(x == y),
+                ".!=" | "!=" => Some(x != y),
+                _ => None,
+            }
+        }
+        _ => None,
+    }
+}
+
 pub fn frame_assigned(e: &E, under_branch: bool, definite: &mut Vec<String>, possible: &mut BTreeSet<String>) {
+    // a conditional whose condition is a constant evaluates exactly one branch
+    if let E::Cond(c, t, f) = e {
+        if let Some(b) = const_bool(c) {
+            frame_assigned(c, under_branch, definite, possible);
+            frame_assigned(if b { t } else { f }, under_branch, definite, possible);
+            return;
+        }
+    }
     if let E::Assign(n, _) = e {
         possible.insert(n.clone());
         if !under_branch {
